@@ -81,7 +81,8 @@ def network_case(ctx, out, desc, tseed):
         out.spec_fail(dict(canon, symptom='raises', exc=tag(e)), 'transformed description fails to solve', gen_net.pretty(desc),
                       impl=dict(transformed=gen_net.pretty(desc2)), desc=desc, tseed=tseed); return
     out.nontrivial(('net', gen_net.shape(desc), bool(flips)))
-    scale = max([abs(x) for x in list(pot.values()) + list(v.values())] + [1e-300])
+    srcv = [abs(complex(b.element.V)) for b in net.branches if np.isfinite(complex(b.element.V))]
+    scale = max([abs(x) for x in list(pot.values()) + list(v.values())] + srcv + [1e-300])   # incl. source magnitudes: shorted big sources leave tiny, cancellation-dominated potentials
     iscale = max([abs(x) for x in i.values()] + [gen_net.ymax_json(gen_net.desc_to_json(desc)) * scale])
     shift = pot[next(k for k, s in sigma.items() if s == desc2['zero'])]
     def fail(what, **impl):
@@ -96,6 +97,26 @@ def network_case(ctx, out, desc, tseed):
         if not core.rclose(p2[t], p[k], scale * iscale, tol): return fail('power', id=k, a=str(p[k]), b=str(p2[t]))
     out.traces_validated += 1
     out.sample(dict(original=gen_net.pretty(desc), transformed=gen_net.pretty(desc2)))
+    # ---- port impedance between two nodes is invariant as well (C06 domain)
+    from CircuitCalculator.Network.NodalAnalysis.node_analysis import open_circuit_impedance
+    labels = sorted(sigma)
+    prng = core.Rng(tseed, 'port')
+    for _ in range(2):
+        if len(labels) < 2: break
+        a, b = prng.sample(labels, 2)
+        def z_of(n, x, y):
+            try:
+                return ('ok', complex(open_circuit_impedance(n, x, y)))
+            except Exception as e:
+                return ('err', tag(e))
+        z1, z2 = z_of(net, a, b), z_of(net2, sigma[a], sigma[b])
+        out.count('port_compared')
+        if z1[0] != z2[0] or (z1[0] == 'err' and z1[1] != z2[1]):
+            fail('port_impedance_outcome', nodes=(a, b), a=str(z1), b=str(z2)); return
+        zs = [abs(1 / b.element.Y) for b in net.branches if np.isfinite(complex(b.element.Y)) and b.element.Y != 0]
+        zscale = max(zs + [1e-300])          # a shorted port reads 0 up to rounding noise of the network's own impedance scale
+        if z1[0] == 'ok' and np.isfinite(z1[1]) and not core.rclose(z2[1], z1[1], zscale, max(tol, 1e-7)):
+            fail('port_impedance', nodes=(a, b), a=str(z1[1]), b=str(z2[1])); return
 
 CNEG = {'dc_voltage_source': 'V', 'ac_voltage_source': 'V', 'dc_current_source': 'I', 'ac_current_source': 'I', 'complex_voltage_source': 'V'}
 
@@ -265,7 +286,8 @@ def run(ctx, out):
     n1, n2 = (200, 150) if ctx.quick else (5000, 4000)
     for k in range(n1):
         if ctx.time_left() < 20: break
-        network_case(ctx, out, gen_net.random_desc(rng, exact=rng.random() < 0.6, n_nodes=rng.randint(2, 7)), rng.randrange(1 << 30))
+        network_case(ctx, out, gen_net.random_desc(rng, exact=rng.random() < 0.6, n_nodes=rng.randint(2, 7),
+                                                   degenerate=rng.choice([0.0, 0.0, 0.15, 0.3])), rng.randrange(1 << 30))
     for k in range(n2):
         if ctx.time_left() < 30: break
         circuit_case(ctx, out, gen_circ.random_circuit(rng), rng.choice([0.0, 1.0, 2.0]), rng.randrange(1 << 30))
